@@ -215,7 +215,9 @@ class YPPrologVisitor(prologVisitor):
 
     def _debug(self,*args):
         if self.context.debug_parser:
-            self.context.outf.write('# ' + " ".join([str(a) for a in args]) + '\n')
+            # a message may contain line breaks (quoted atoms): keep every line a comment
+            for line in (" ".join([str(a) for a in args]).splitlines() or ['']):
+                self.context.outf.write('# ' + line + '\n')
 
     def visitProgram(self,ctx):
         clauses = {}
